@@ -1095,7 +1095,7 @@ func main() {
 	}
 
 	matrixCases := run.N(matrixSize, 18*matrixSize)
-	n := run.N(matrixSize+1440, 18*matrixSize+36120) // 3 600 / 75 000 cases, each on both routers
+	n := run.N(matrixSize+4320, 18*matrixSize+36120) // 3 600 / 75 000 cases, each on both routers
 	run.Extra("cases", map[string]int{"scripted_scenarios": len(scenarios), "matrix": matrixCases, "near_valid": n - matrixCases, "routers": 2})
 	if rc := run.ReplayCase(); rc >= 0 {
 		runCase(run, int(rc), 0, matrixCases)
